@@ -1,6 +1,7 @@
 package props
 
 import (
+	"github.com/ory/fosite"
 	"sort"
 	"strings"
 	"testing"
@@ -111,6 +112,12 @@ func TestC16_DeviceHistories(t *testing.T) {
 		Weights: map[string]int{"deviceAuth": 4, "deviceDecide": 4, "devicePoll": 8, "advance": 2, "refresh": 1},
 		Stores:  []string{"mem", "tx"}, JWT: []bool{false, true}, RefreshScopeModes: []int{0, 1},
 		Flows: []string{"code"}, ShortLived: true,
+		MutateDraw: func(rt *rapid.T, c *fosite.Config) {
+			c.UserCodeLength = rapid.SampledFrom([]int{0, 6, 8, 12}).Draw(rt, "userCodeLength")
+			if rapid.Bool().Draw(rt, "customUserCodeAlphabet") {
+				c.UserCodeSymbols = []rune("BCDFGHJKLMNPQRSTVWXZ")
+			}
+		},
 	}, func(l map[string]bool) bool {
 		return l["device-replay"] || (anyPrefix(l, "device-decision=") && anyPrefix(l, "device-refused:"))
 	})
